@@ -474,6 +474,9 @@ theorem supply_step (st : State) (c : Ctx) (op : Op) (accts : List Addr) (hnd : 
       obtain ⟨_, hst, _⟩ := transferOwnership_ok ha
       simp only [supplyDelta]
       rw [total_congr st st' accts (fun _ _ => by rw [hst])]; omega
+    | upgradeMigrate =>
+      cases (apply_upgradeMigrate_ok _ _ _ ha).1
+      simp [supplyDelta]
 
 /-- **Σ balances = supply** over every history: the sum of balances moves exactly by the mints minus the burns -/
 theorem supply_run (st : State) (ops : List (Ctx × Op)) (accts : List Addr) (hnd : accts.Nodup)
@@ -626,6 +629,9 @@ theorem nonneg_step (st : State) (c : Ctx) (op : Op) (h : NonNeg st) : NonNeg (s
       simp only [apply] at ha
       obtain ⟨_, rfl, _⟩ := transferOwnership_ok ha
       exact h
+    | upgradeMigrate =>
+      cases (apply_upgradeMigrate_ok _ _ _ ha).1
+      exact h
 
 /-- no balance or allowance is ever negative, in any history from construction -/
 theorem nonneg_run (st : State) (ops : List (Ctx × Op)) (h : NonNeg st) : NonNeg (run st ops) := by
@@ -694,6 +700,7 @@ theorem negative_amount_rejected (st : State) (c : Ctx) (op : Op) (a : Int) (ha 
       have := (burnFrom_exact _ _ _ _ _ _ _ hap).2.1
       omega
     | transferOwnership n => simp [Op.amount] at ha
+    | upgradeMigrate => simp [Op.amount] at ha
 
 theorem insufficient_balance_rejected (st : State) (c : Ctx) (src dst : Addr) (amount : Int) (h : st.bal src < amount) :
     (∃ e, transfer st c src dst amount = .error e) ∧ (∃ e, burn st c src amount = .error e) ∧
@@ -816,6 +823,7 @@ theorem only_minters_mint (st : State) (c : Ctx) (op : Op) (evs : List Event)
       have := (burnFrom_exact _ _ _ _ _ _ _ hap).2.1
       omega
     | transferOwnership n => simp [supplyDelta] at hd
+    | upgradeMigrate => simp [supplyDelta] at hd
 
 /-- the minter set and the owner change only through the owner's own authorised calls -/
 theorem roles_step (st : State) (c : Ctx) (op : Op) :
@@ -926,6 +934,7 @@ theorem roles_step (st : State) (c : Ctx) (op : Op) :
     | transferOwnership n =>
       simp only [apply] at hap
       exact Or.inr (transferOwnership_ok hap).1
+    | upgradeMigrate => exact Or.inr (apply_upgradeMigrate_ok _ _ _ hap).2
 
 /-- administrator change: the ownable event and the token-standard `set_admin` event both name the PREVIOUS and the new administrator -/
 theorem transferOwnership_exact (st st' : State) (c : Ctx) (new : Addr) (evs : List Event)
@@ -941,6 +950,13 @@ example : ∃ st' evs, transfer { (construct ⟨true, [1]⟩ none) with bal := f
   simp [transfer, spendBalance, receiveBalance, construct, i128Max]
 
 /-! ### non-vacuity (the model RUN in the kernel on a concrete history) -/
+/-- the owner's administrative step — upgrade to the same code and migration — changes no balance, allowance or role, whether it
+    is accepted or refused; it is accepted only with the owner's authorisation (the history theorems above range over it) -/
+theorem admin_step_changes_nothing (st : State) (c : Ctx) :
+    (step st c .upgradeMigrate).1 = st ∧
+    (∀ r, apply st c .upgradeMigrate = .ok r → r = (st, []) ∧ st.owner ∈ c.auths) :=
+  ⟨step_upgradeMigrate_fst st c, fun r h => apply_upgradeMigrate_ok st c r h⟩
+
 section NonVacuity
 open Cgp.Toy
 
